@@ -41,7 +41,10 @@ _LOGGER = logging.getLogger(__name__)
 
 _END_PATTERN = r"{}$".format(
     "".join(
-        {
+        # A dict (insertion-ordered) instead of a set: the order of the groups
+        # matters for what the pattern matches, and set iteration order depends
+        # on the string hash seed.
+        dict.fromkeys(
             r"(?:{})*".format(item)  # pylint: disable=consider-using-f-string
             for item in chain(
                 (
@@ -63,7 +66,7 @@ _END_PATTERN = r"{}$".format(
                     ]
                 ),
             )
-        }
+        )
     )
 )
 _LICENSE_IDENTIFIER_PATTERN = re.compile(
